@@ -65,14 +65,39 @@ def _grammar_figs(rng, n):
         figs.append(rng.choice(roots) + k + rng.choice(CHORD_BASSES[2:]))
     while len(figs) < n:
         figs.append(rng.choice(roots) + rng.choice(kinds) + rng.choice(CHORD_MODS) + rng.choice(CHORD_BASSES))
-    ok = []
-    for f in figs:          # keep figures the parser gives a meaning to (the rest are C15's rejection paths)
+    # keep figures that denote a chord by the C15 model (the rest are C15's rejection paths)
+    return [f for f, m in zip(figs, _meaning_indep(figs)) if m is not None]
+
+
+_INDEP = {}
+
+
+def _meaning_indep(figs):
+    """(root, triad quality) of chord figures by the Coq model of property C15 (extracted runner), i.e. independently of
+    note_seq.chord_symbols_lib's interpreter -- only the library's lexical split of the figure is used.  Batched and
+    memoised.  None for a figure outside the grammar or without a root/quality."""
+    from vt import engine
+    from vt.props import c15
+    todo = [f for f in dict.fromkeys(figs) if f not in _INDEP]
+    ins, keep = [], []
+    for f in todo:
+        if f == 'N.C.':
+            _INDEP[f] = []
+            continue
         try:
-            _meaning(f)
-            ok.append(f)
+            mi = c15.model_input({'op': 'parse', 'input': f})
         except Exception:   # noqa
-            pass
-    return ok
+            mi = None
+        if mi is None:
+            _INDEP[f] = None
+        else:
+            ins.append(mi)
+            keep.append(f)
+    if ins:
+        for f, o in zip(keep, engine.run_model_ocaml('C15', ins)):
+            r = c15._minterp(o)
+            _INDEP[f] = [r[0][1], r[3][1]] if r[0][0] == 'OK' and r[3][0] == 'OK' else None
+    return [_INDEP[f] for f in figs]
 
 
 def _meaning(fig):
@@ -157,6 +182,7 @@ def cases(rng, tier, n=None):
             out.append({'op': op, 'input': [rng.randrange(nc), fig]})
     if n is not None:
         out = out[:n]
+    _meaning_indep([c['input'][1] for c in out if c['op'] in ('chord_mm', 'chord_triad')])   # one batch
     return out
 
 
@@ -210,7 +236,7 @@ def impl(case):
         i, fig = a
         enc = ced.MajorMinorChordOneHotEncoding() if op == 'chord_mm' else ced.TriadChordOneHotEncoding()
         return ['OK', enc.num_classes, _try(lambda: enc.encode_event(fig)),
-                _try(lambda: _meaning(enc.decode_event(i)))]
+                _try(lambda: _meaning_indep([enc.decode_event(i)])[0])]
     raise ValueError(op)
 
 
@@ -230,9 +256,8 @@ def model_input(case):
     if op == 'density':
         return [6] + a
     if op in ('chord_mm', 'chord_triad'):
-        try:
-            m = _meaning(a[1])
-        except Exception:  # figure the library cannot parse: no model side for encode
+        m = _meaning_indep([a[1]])[0]     # what the figure denotes by the C15 model, not by the library under test
+        if m is None:                      # outside the grammar: no model side for encode
             return None
         return [7 if op == 'chord_mm' else 8, a[0], m]
 
@@ -390,9 +415,10 @@ def oracle(case, io):
             c = io[2][1]
             if not (0 <= c < nc):
                 return {'kind': 'chord-encode-out-of-range', 'op': op, 'figure': fig, 'got': c}
-            if _meaning(enc.decode_event(c)) != _meaning(fig):
+            want, got = _meaning_indep([fig, enc.decode_event(c)])
+            if want is not None and got != want:
                 return {'kind': 'chord-encode-decode-changes-root-or-quality', 'op': op, 'figure': fig,
-                        'decoded': enc.decode_event(c)}
+                        'decoded': enc.decode_event(c), 'figure_means': want, 'decoded_means': got}
         return None
 
 
@@ -411,5 +437,8 @@ META = {
                    'Chord one-hot encodings (major/minor 25 classes, triads 49): complete in-kernel enumeration over the '
                    'table of (root, quality) meanings the library parser assigns to every decodable name, regenerated on every '
                    'run, plus a general encode-range/inverse lemma for every (root 0..11, quality); parsing figure strings to '
-                   '(root, quality) is chord_symbols_lib itself (glue; its semantics is property C15).'),
+                   '(root, quality) inside the encoders is chord_symbols_lib (its semantics is property C15); the correspondence and the '
+                   'oracle take the meaning of a figure from the extracted Coq model of C15 (only the library\'s lexical split '
+                   'of the figure is reused), so an encoder that disagrees with the documented triad quality is seen even '
+                   'when the library is consistent with itself.'),
 }
